@@ -30,7 +30,7 @@ Section MergeFoldW.
                  match cget ca (fst kv) with
                  | Some c => let '(c', chg) := merge h c (snd kv) in
                              (creplace ca (fst kv) c', changed || chg)
-                 | None => (ca ++ [kv], true)
+                 | None => (ca ++ [kv], changed || has_rows h (snd kv))
                  end.
 
   Lemma merge_fold_w rest : forall cur chg,
@@ -47,7 +47,7 @@ Section MergeFoldW.
       assert (Estep : stepf (cur, chg) (k, v) =
                       match cget cur k with
                       | Some c => let '(c', g) := merge h c v in (creplace cur k c', chg || g)
-                      | None => (cur ++ [(k, v)], true)
+                      | None => (cur ++ [(k, v)], chg || has_rows h v)
                       end) by reflexivity.
       rewrite Estep. clear Estep.
       destruct (cget cur k) as [c|] eqn:G.
@@ -67,7 +67,7 @@ Section MergeFoldW.
         split; [exact nd2|split; [exact F2|]].
         intros x. rewrite M2, Rows1, chrows_cons, in_app_iff. tauto.
       + assert (nin : ~ In k (map fst cur)) by (apply cget_none, G).
-        destruct (IHr (cur ++ [(k, v)]) true) as (nd2 & F2 & M2).
+        destruct (IHr (cur ++ [(k, v)]) (chg || has_rows h v)) as (nd2 & F2 & M2).
         * rewrite map_app. cbn. apply NoDup_snoc; assumption.
         * apply Forall_app. split; [assumption|]. constructor; [|constructor].
           split; [exact Wv|]. cbn [fst snd]. apply Forall_forall, Hv.
